@@ -1,4 +1,5 @@
 import SaModel.Lemmas.C03LRNew
+import SaModel.Lemmas.FloatBounds
 /-
 `WFX` of the final builder state from the push invariants:
    PX root (unconditional) + LR root (ExtOK, FloatOK, well-formed rows) + ViewSmall root (view buffers < 4 GiB) → WFX root
@@ -53,10 +54,31 @@ theorem VUL_of_PXL : ∀ (fs : BL), PXL fs → ViewSmallL fs → VUL fs
     exact ⟨VU_of_PX b hp.1 hs.1, VUL_of_PXL r hp.2 hs.2⟩
 end
 
+/-- the IEEE conversions of `Basic/Float.lean` return bit patterns of the target width (Lemmas/FloatBounds.lean) -/
+theorem floatOK : FloatOK where
+  ofInt32 v := by
+    have := FloatBounds.ofInt_lt Float.f32 (by decide) v
+    rwa [show (2 : Nat) ^ Float.f32.width = 4294967296 by decide] at this
+  ofInt64 v := by
+    have := FloatBounds.ofInt_lt Float.f64 (by decide) v
+    rwa [show (2 : Nat) ^ Float.f64.width = 18446744073709551616 by decide] at this
+  narrow64_32 b := by
+    have := FloatBounds.convert_lt Float.f64 Float.f32 (by decide) (by decide) b
+    rwa [show (2 : Nat) ^ Float.f32.width = 4294967296 by decide] at this
+  widen32_64 b := by
+    have := FloatBounds.convert_lt Float.f32 Float.f64 (by decide) (by decide) b
+    rwa [show (2 : Nat) ^ Float.f64.width = 18446744073709551616 by decide] at this
+  narrow32_16 b := by
+    have := FloatBounds.convert_lt Float.f32 Float.f16 (by decide) (by decide) b
+    rwa [show (2 : Nat) ^ Float.f16.width = 65536 by decide] at this
+  narrow64_16 b := by
+    have := FloatBounds.convert_lt Float.f64 Float.f16 (by decide) (by decide) b
+    rwa [show (2 : Nat) ^ Float.f16.width = 65536 by decide] at this
+
 /-- **`WFX` after any accepted sequence of well-formed rows** -/
-theorem runRows_WFX (ext : Ext) (he : ExtOK ext) (hf : FloatOK) (fields : List Field) (rows : List SVal) (root : B)
+theorem runRows_WFX (ext : Ext) (he : ExtOK ext) (fields : List Field) (rows : List SVal) (root : B)
     (hx : ∀ x ∈ rows, SValOK x) (h : runRows ext fields rows = .ok root) (hs : ViewSmall root) : WFX root := by
   have hp := runRows_PX ext fields rows root h
-  exact WFX_of_PX root hp (WFXrest_of root (runRows_LR ext he hf fields rows root hx h) (VU_of_PX root hp hs))
+  exact WFX_of_PX root hp (WFXrest_of root (runRows_LR ext he floatOK fields rows root hx h) (VU_of_PX root hp hs))
 
 end SaModel.Lemmas.C03
